@@ -54,8 +54,8 @@ pub fn block(c: &Case) -> Vec<u8> {
     }
     for (i, (n, v)) in fields(c).iter().enumerate() {
         let rep = c.reps[i % c.reps.len().max(1)];
-        // a huge value is never put into the 4096-byte dynamic table
-        let rep = if v.len() > 1000 && matches!(rep, Rep::Indexed | Rep::LitIdxNewName | Rep::LitIdxIndexedName) { Rep::LitNoIdx } else { rep };
+        // a 16000-byte value is sent without indexing (inserting it would only empty the table; that case has its own family)
+        let rep = if v.len() > 8000 && matches!(rep, Rep::Indexed | Rep::LitIdxNewName | Rep::LitIdxIndexedName) { Rep::LitNoIdx } else { rep };
         b.extend(e.field(n, v, rep, c.huff_names, c.huff_values));
     }
     b
@@ -257,6 +257,41 @@ pub fn cases(thorough: bool) -> Vec<(Case, &'static str)> {
         let mut full = vec![Rep::Indexed; 4];
         full.extend(reps);
         v.push((Case { reps: full, ..plain(&rep_msg) }, "dynamic-references"));
+    }
+    // string lengths across the HPACK integer boundaries (7-bit prefix: 126/127/128, 254/255/256 ...) for names and
+    // values, plain and Huffman, with and without indexing
+    let lens: Vec<usize> = (0..=300).chain([1000, 4000, 4063, 4064, 4065, 4096, 5000]).collect();
+    for &l in &lens {
+        for (huff, rep) in [(false, Rep::LitNoIdx), (true, Rep::LitNoIdx), (false, Rep::LitIdxNewName), (true, Rep::LitIdxIndexedName)] {
+            let m = base_request(vec![("user-agent", "x")]);
+            let mut mv = m.clone();
+            mv.headers.push((s("x-len"), "v".repeat(l)));
+            mv.headers.push((s("x-after"), s("1")));
+            v.push((Case { reps: vec![rep], huff_names: huff, huff_values: huff, ..plain(&mv) }, "string-lengths"));
+            if l >= 1 && l <= 300 {
+                let mut mn = m.clone();
+                mn.headers.push((format!("x{}", "n".repeat(l - 1)), s("1")));
+                mn.headers.push((s("x-after"), s("1")));
+                v.push((Case { reps: vec![rep], huff_names: huff, huff_values: huff, ..plain(&mn) }, "string-lengths"));
+            }
+        }
+    }
+    // dynamic-table eviction: more inserted entries than 4096 bytes hold, then references to the newest entries and a
+    // repetition of an evicted one (the encoder models RFC 7541 eviction, so evicted pairs are sent as literals again)
+    for (count, vlen) in [(60usize, 60usize), (120, 60), (45, 59), (46, 59), (5, 1000), (3, 2000)] {
+        let mut hs: Vec<(String, String)> = (0..count).map(|i| (format!("x-e{i}"), format!("{i:03}{}", "w".repeat(vlen - 3)))).collect();
+        // the newest three again (indexed), the oldest again (evicted if the table overflowed)
+        for i in [count - 1, count - 2, count - 3, 0, 1] {
+            hs.push(hs[i].clone());
+        }
+        let mut m = base_request(vec![]);
+        m.headers = hs.clone();
+        v.push((Case { reps: vec![Rep::Indexed], ..plain(&m) }, "dynamic-table-eviction"));
+        v.push((Case { reps: vec![Rep::Indexed], huff_values: true, ..plain(&m) }, "dynamic-table-eviction"));
+        v.push((Case { reps: vec![Rep::Indexed], size_updates: vec![1000], ..plain(&m) }, "dynamic-table-eviction"));
+        let mut r2 = base_response(200, vec![]);
+        r2.headers = hs;
+        v.push((Case { reps: vec![Rep::Indexed], ..plain(&r2) }, "dynamic-table-eviction"));
     }
     // (2) pseudo-header orders
     for o in ["mpas", "mspa", "pmsa", "aspm", "samp", "mps", "mp"] {
